@@ -1,0 +1,103 @@
+// Copyright 2022 The Go Authors. All rights reserved.
+// Use of this source code is governed by a BSD-style
+// license that can be found in the LICENSE file.
+
+//go:build verif
+
+package benchseries
+
+// Contracts for the helpers of the comparison series (property C18).  Comment
+// only: read by the verifier in /verif, never compiled into the package.
+
+// sortedNF: sorted the way sort.Float64s leaves a slice (NaNs first, the rest ascending).
+//@ pure func sortedNF(a []float64) bool = forall i int, j int :: 0 <= i <= j < len(a) && !isNaN(a[i]) ==> a[i] <= a[j]
+
+// union: the key set of the result is the union of the key sets; operands untouched.
+//@ func union(a, b map[benchproc.Key]struct{}) (c map[benchproc.Key]struct{})
+//@   props C18
+//@   opt allocates
+//@   ensures forall k benchproc.Key :: has(c, k) <==> (has(a, k) || has(b, k))
+//@   ensures forall k benchproc.Key :: has(a, k) <==> old(has(a, k))
+//@   ensures forall k benchproc.Key :: has(b, k) <==> old(has(b, k))
+//@   loop 1:
+//@     invariant unchanged() && ((a == old(a) && b == old(b)) || (a == old(b) && b == old(a)))
+//@     invariant forall k benchproc.Key :: visited(k) ==> has(b, k)
+//@   loop 2:
+//@     invariant unchanged() && ((a == old(a) && b == old(b)) || (a == old(b) && b == old(a))) && c != nil && fresh(c)
+//@     invariant forall k benchproc.Key :: visited(k) ==> has(c, k)
+//@     invariant forall k benchproc.Key :: has(c, k) ==> has(a, k)
+//@   loop 3:
+//@     invariant unchanged() && ((a == old(a) && b == old(b)) || (a == old(b) && b == old(a))) && c != nil && fresh(c)
+//@     invariant forall k benchproc.Key :: visited(k) ==> has(c, k)
+//@     invariant forall k benchproc.Key :: has(a, k) ==> has(c, k)
+//@     invariant forall k benchproc.Key :: has(c, k) ==> has(a, k) || has(b, k)
+
+// concat: a fresh slice holding a followed by b.
+//@ func concat(a, b []float64) (c []float64)
+//@   props C18
+//@   opt allocates
+//@   ensures len(c) == len(a) + len(b)
+//@   ensures forall i int :: 0 <= i < len(a) ==> bits(c[i], a[i])
+//@   ensures forall i int :: 0 <= i < len(b) ==> bits(c[len(a)+i], b[i])
+
+// median: the middle element, or the mean of the two middle elements, which for a
+// sorted slice (no overflow in the sum) lies between them.
+//@ func median(a []float64) (m float64)
+//@   props C18
+//@   requires len(a) >= 1
+//@   ensures len(a) % 2 == 1 ==> bits(m, a[len(a)/2])
+//@   ensures len(a) % 2 == 0 ==> m == (a[len(a)/2] + a[len(a)/2-1]) / 2 || (isNaN(m) && isNaN((a[len(a)/2] + a[len(a)/2-1]) / 2))
+//@   ensures len(a) % 2 == 0 && a[len(a)/2-1] <= a[len(a)/2] && -1e300 <= a[len(a)/2-1] && a[len(a)/2] <= 1e300 ==> a[len(a)/2-1] <= m <= a[len(a)/2]
+
+// percentile: the order statistic at position n*p, interpolated linearly between
+// neighbours.  pctPos/pctIdx/pctFrac name the position, its integer part and its fraction.
+// The last clause is the one the property needs (a value between two neighbouring
+// order statistics, so that low <= centre <= high); it does not hold: rounding in the
+// interpolation leaves the value one unit in the last place outside (known finding).
+//@ pure func pctPos(a []float64, p float64) float64 = float64(len(a)) * p
+//@ pure func pctIdx(a []float64, p float64) int = int(pctPos(a, p))
+//@ pure func pctFrac(a []float64, p float64) float64 = pctPos(a, p) - float64(pctIdx(a, p))
+//@ func percentile(a []float64, p float64) (r float64)
+//@   props C18
+//@   requires len(a) == 0 || p == 0 || p == 1 || 0 <= pctIdx(a, p) < len(a)
+//@   ensures len(a) == 0 ==> isNaN(r)
+//@   ensures len(a) > 0 && p == 0 ==> bits(r, a[0])
+//@   ensures len(a) > 0 && p == 1 ==> bits(r, a[len(a)-1])
+//@   ensures len(a) > 0 && p != 0 && p != 1 && (pctIdx(a, p) + 1 >= len(a) || !(pctFrac(a, p) > 0)) ==> bits(r, a[pctIdx(a, p)])
+//@   ensures len(a) > 0 && p != 0 && p != 1 && pctIdx(a, p) + 1 < len(a) && pctFrac(a, p) > 0 ==> bits(r, a[pctIdx(a, p)] * (1 - pctFrac(a, p)) + a[pctIdx(a, p)+1] * pctFrac(a, p))
+//@   ensures len(a) > 0 && p != 0 && p != 1 && pctIdx(a, p) + 1 < len(a) && (isNaN(a[pctIdx(a, p)]) || a[pctIdx(a, p)] <= a[pctIdx(a, p)+1]) ==> isNaN(r) || (a[pctIdx(a, p)] <= r && r <= a[pctIdx(a, p)+1])
+
+// resampleInto: every drawn index is in range, the destination ends up sorted and,
+// when the cell's values are NaN-free, so is the destination.
+//@ func (c *Cell) resampleInto(r *rand.Rand, x []float64)
+//@   props C18
+//@   requires c != nil && r != nil && len(x) <= len(c.Values) && (len(x) == 0 || ref(x) != ref(c.Values))
+//@   modifies x
+//@   ensures sortedNF(x)
+//@   ensures (forall k int :: 0 <= k < len(c.Values) ==> !isNaN(c.Values[k])) ==> (forall k int :: 0 <= k < len(x) ==> !isNaN(x[k]))
+//@   loop 1:
+//@     invariant 0 <= idx() <= len(x) && l == len(x) && unchanged(x)
+//@     invariant (forall k int :: 0 <= k < len(c.Values) ==> !isNaN(c.Values[k])) ==> (forall k int :: 0 <= k < idx() ==> !isNaN(x[k]))
+//@     decreases len(x) - idx()
+
+// ratio: the bootstrap itself.  No index leaves its slice for any number of
+// resamples and any non-empty cells; the ratios end up sorted; centre is their
+// median and low / high are their percentiles at (1-confidence)/2 and 1-(1-confidence)/2.
+// That the two percentile positions are inside the slice is assumed (see percentile).
+//@ func ratio(nu, de *Cell, confidence float64, r *rand.Rand, ratios []float64) (center, low, high float64)
+//@   props C18
+//@   opt allocates
+//@   requires nu != nil && de != nil && r != nil && len(nu.Values) >= 1 && len(de.Values) >= 1 && len(ratios) >= 1
+//@   requires ref(ratios) != ref(nu.Values) && ref(ratios) != ref(de.Values)
+//@   requires (1-confidence)/2 == 0 || (1-confidence)/2 == 1 || 0 <= pctIdx(ratios, (1-confidence)/2) < len(ratios)
+//@   requires 1-(1-confidence)/2 == 0 || 1-(1-confidence)/2 == 1 || 0 <= pctIdx(ratios, 1-(1-confidence)/2) < len(ratios)
+//@   modifies ratios
+//@   ensures sortedNF(ratios)
+//@   ensures len(ratios) % 2 == 1 ==> bits(center, ratios[len(ratios)/2])
+//@   ensures len(ratios) % 2 == 0 && ratios[len(ratios)/2-1] <= ratios[len(ratios)/2] && -1e300 <= ratios[len(ratios)/2-1] && ratios[len(ratios)/2] <= 1e300 ==> ratios[len(ratios)/2-1] <= center <= ratios[len(ratios)/2]
+//@   ensures (1-confidence)/2 == 0 ==> bits(low, ratios[0]) && bits(high, ratios[len(ratios)-1])
+//@   ensures (1-confidence)/2 != 0 && (1-confidence)/2 != 1 && (pctIdx(ratios, (1-confidence)/2) + 1 >= len(ratios) || !(pctFrac(ratios, (1-confidence)/2) > 0)) ==> bits(low, ratios[pctIdx(ratios, (1-confidence)/2)])
+//@   ensures 1-(1-confidence)/2 != 0 && 1-(1-confidence)/2 != 1 && (pctIdx(ratios, 1-(1-confidence)/2) + 1 >= len(ratios) || !(pctFrac(ratios, 1-(1-confidence)/2) > 0)) ==> bits(high, ratios[pctIdx(ratios, 1-(1-confidence)/2)])
+//@   loop 1:
+//@     invariant 0 <= i <= N && N == len(ratios) && unchanged(ratios) && fresh(rnu) && fresh(rde) && len(rnu) == len(nu.Values) && len(rde) == len(de.Values) && ref(rnu) != ref(rde)
+//@     decreases N - i
